@@ -7,7 +7,8 @@ EXPLANATION = (
     "{**/*.lua} plus {**/*.luau} exactly when the luau feature is compiled in; a glob mismatch skips the file and the "
     "default-glob test is guarded by should_respect_ignores(); WalkBuilder::hidden receives `!opt.allow_hidden`; the "
     "custom ignore file name is `.styluaignore`; should_respect_ignores is `!explicit || respect_ignores`; format_file "
-    "has one caller (R-FS). Not decided: what the `ignore` crate's walker yields; path spelling aliases.")
+    "has one caller (R-FS); the --glob override matcher is rooted at std::env::current_dir(); walker options are set once, "
+    "in an order in which none overwrites another. Not decided: what the `ignore` crate's walker yields; path spelling aliases.")
 ASSUMPTIONS = ["the `ignore` and `globset` crates behave as documented", "rustc MIR and Instance::try_resolve are trusted"]
 
 
